@@ -152,6 +152,9 @@ def _task_stacks(limit=40):
     return out
 
 
+_HEARTBEATS: set = set()
+
+
 def loop_is_quiescent(loop) -> bool:
     """True iff nothing can ever run again unless an external event arrives:
     no ready callbacks, no live timers (other than ours), no in-flight external op,
@@ -161,7 +164,7 @@ def loop_is_quiescent(loop) -> bool:
     if len(loop._ready) > 0:
         return False
     for h in loop._scheduled:
-        if not h._cancelled and not getattr(h, "_vf_heartbeat", False):
+        if not h._cancelled and h not in _HEARTBEATS:
             return False
     try:
         if len(loop._selector.get_map()) > 1:
@@ -197,11 +200,11 @@ async def run_quiescent(awaitable, wall_timeout=60.0, beat=0.02):
             state["timeout"] = True
             waker.set_result(None)
             return
-        h = loop.call_later(beat, heartbeat)
-        h._vf_heartbeat = True
+        _HEARTBEATS.clear()
+        _HEARTBEATS.add(loop.call_later(beat, heartbeat))
 
-    h = loop.call_later(beat, heartbeat)
-    h._vf_heartbeat = True
+    _HEARTBEATS.clear()
+    _HEARTBEATS.add(loop.call_later(beat, heartbeat))
     await _orig_wait({task, waker}, return_when=asyncio.FIRST_COMPLETED)
     if task.done():
         if not waker.done():
@@ -226,14 +229,14 @@ async def settle(max_beats=200):
         await asyncio.sleep(0)
         # after our own wake-up the ready queue must be empty apart from what others queued
         if Sched.inflight == 0 and len(loop._ready) == 0 and not any(
-            (not h._cancelled) for h in loop._scheduled
+            (not h._cancelled and h not in _HEARTBEATS) for h in loop._scheduled
         ):
             quiet += 1
             if quiet >= 3:
                 return True
         else:
             quiet = 0
-            if Sched.inflight > 0 or any((not h._cancelled) for h in loop._scheduled):
+            if Sched.inflight > 0 or any((not h._cancelled and h not in _HEARTBEATS) for h in loop._scheduled):
                 await asyncio.sleep(0.002)
     return False
 
